@@ -291,7 +291,13 @@ func c17Check(env *core.Env, cc core.Case) core.Verdict {
 		content := c.join(lines)
 		first := "---\ntests:\n  - test_id: 7\n    desc: small first file\n  - test_id: 9\n"
 		relA, relB := "tests/regression/tests/REQUEST-920-X/920100.yaml", "tests/regression/tests/REQUEST-932-X/932100.yaml"
-		if err := (sut.Tree{relA: first, relB: content}).Write(root); err != nil {
+		t := sut.Tree{relA: first, relB: content}
+		if c.Others%2 == 0 {
+			// the large file is reached through a symbolic link (whose own size is that of a short path)
+			t = sut.Tree{relA: first, "tests/shared/long.yaml": content, relB: sut.SymlinkPrefix + "../../../shared/long.yaml"}
+			v.Features = append(v.Features, "through-link")
+		}
+		if err := t.Write(root); err != nil {
 			return core.Incon("cannot write tree: %v", err)
 		}
 		before := sut.Snap(root)
